@@ -57,6 +57,23 @@ def Store.write (st : Store) (w : Overwrite) : Store :=
 /-- The storage after any later history (each request = any number of overwrites). -/
 def Store.after (st : Store) (h : List Overwrite) : Store := h.foldl Store.write st
 
+/-- What the handler does between obtaining a value and returning: it calls accessors. A call of an
+    accessor that writes no recycled storage in place (`Row.readOnly`, a regenerated fact) leaves the
+    storage as it is; any other call may overwrite buffers arbitrarily. -/
+inductive Step where
+  | readOnlyCall                      -- a call of an accessor whose row has `writes = []`
+  | otherCall (ws : List Overwrite)   -- anything else: arbitrary effect on the recycled storage
+
+def Step.apply (st : Store) : Step → Store
+  | .readOnlyCall => st
+  | .otherCall ws => st.after ws
+
+def Store.afterSteps (st : Store) (tr : List Step) : Store := tr.foldl Step.apply st
+
+def Step.isReadOnly : Step → Bool
+  | .readOnlyCall => true
+  | .otherCall _ => false
+
 /-- Where the text an accessor is about lives while the handler runs, and the caller's own argument
     (default value / offer) it may return instead. -/
 structure Site where
@@ -102,6 +119,23 @@ def Row.okImmutable (r : Row) : Bool :=
 def Row.yieldsText (r : Row) : Bool :=
   r.rets.all fun ret => !ret.srcs.isEmpty && ret.srcs.all fun s => s != .unknown && (s != .reqobj || r.kind == .bind)
 
+
+/-- In-place writes of recycled storage an accessor is allowed to make, with the reason:
+    * `Path` (`Req.Path`): only when the HANDLER passes an override – rewriting the path is then the
+      handler's own doing (ctx.go `Path`: `SetPath`, `configDependentPaths` refill `path`/`detectionPath`);
+    * `Body` (`Req.Body`): `SetBodyRaw` installs the decoded layer and afterwards a private copy of the
+      original body (ctx.go `tryDecodeBodyInOrder` / `Body`); the bytes a `BodyRaw()` view points to are
+      not rewritten by it. -/
+def allowedWrites : String → List String
+  | "Path" | "Req.Path" => ["detectionPath", "path", "fasthttp.SetPath"]
+  | "Body" | "Req.Body" => ["fasthttp.SetBodyRaw"]
+  | _ => []
+
+/-- An accessor leaves the recycled storage alone (apart from the documented exceptions). -/
+def Row.writesAllowed (r : Row) : Bool := r.writes.all (allowedWrites r.name).contains
+
+/-- An accessor call that cannot disturb values handed out earlier: it writes nothing in place. -/
+def Row.readOnly (r : Row) : Bool := r.writes.isEmpty
 
 /-- The binder (package binder) a method of `fiber.Bind` hands the request / response object to.
     A new method that passes such an object on has no entry here and fails `Row.bindCovered`. -/
@@ -343,6 +377,8 @@ def Req.respHeader (q : Req) (k : Bytes) : Option Bytes :=
     `none` = no transcription (checked for stability only). The `Req.` / `Res.` facades (req.go,
     res.go) delegate to the context's methods. -/
 def sem (c : Cfg) (q : Req) (meth : String) (key : Bytes) : Option (List Bytes) :=
+  -- `Pre.X`: the same accessor, called by the harness before all others
+  let meth := if meth.startsWith "Pre." then (meth.drop 4).toString else meth
   let meth := if meth.startsWith "Req." then (meth.drop 4).toString else meth
   match meth with
   | "Params" | "Params[string]" | "Params[[]byte]" => some [q.param c key]
